@@ -651,6 +651,23 @@ func Gosched() {
 	PointOp(&Op{Kind: "runtime.Gosched", yield: true})
 }
 
+// OrdinaryEnabled reports whether some ordinary (non-environment) thread can make a step right now. Environment
+// threads use it to tell a voluntary event (bounded) from one without which the execution would be stuck.
+//
+//go:norace
+func OrdinaryEnabled() bool {
+	s := cur
+	if s == nil {
+		return true
+	}
+	for _, x := range s.threads {
+		if !x.daemon && !x.done && s.isReady(x) {
+			return true
+		}
+	}
+	return false
+}
+
 // Self returns the id of the running model thread (-1 outside an execution).
 //
 //go:norace
